@@ -7,9 +7,62 @@ PORTS = {1: {"udp": 20002, "tcp": 9957}, 2: {"udp": 20003, "tcp": 10000}}
 NARGS = {"SwitcherPowerPlug": 9, "SwitcherWaterHeater": 11, "SwitcherThermostat": 13, "SwitcherShutter": 9}
 
 
+def table_problems():
+    import dataclasses
+    bad = []
+    for cname, cat in CLASS_CATEGORY.items():
+        klass = getattr(device, cname)
+        nargs = len([f for f in dataclasses.fields(klass) if f.init])
+        for t in DeviceType:
+            try:
+                klass(t, DeviceState.ON, *(["x"] * (nargs - 2)))
+                accepted = True
+            except ValueError:
+                accepted = False
+            if accepted != (t.category.name == cat):
+                bad.append(f"{cname}({t.name}) accepted={accepted}")
+    for t in DeviceType:
+        if api.SWITCHER_DEVICE_TO_TCP_PORT.get(t.category) != PORTS.get(t.protocol_type, {}).get("tcp"):
+            bad.append("tcp port " + t.name)
+        if bridge.SWITCHER_DEVICE_TO_UDP_PORT.get(t.category) != PORTS.get(t.protocol_type, {}).get("udp"):
+            bad.append("udp port " + t.name)
+    return bad
+
+
 def run_case(c):
     if c["kind"] == "canary":
         return {"ok": DeviceType.BREEZE.protocol_type == 1}
+    if c["kind"] == "after_use":
+        # the consistency must survive ordinary use of the library: objects built with default arguments, broadcasts parsed
+        # (good, malformed, with a raising callback), operations run
+        import warnings
+        from .n_c05 import gen
+        import random
+        rnd = random.Random(7)
+        b1 = bridge.SwitcherBridge(lambda d: None)
+        b2 = bridge.SwitcherBridge(lambda d: None)
+        if list(b1._broadcast_ports) != list(b2._broadcast_ports) or not {20002, 20003} <= set(b2._broadcast_ports):
+            return {"ok": False, "detail": f"default bridge ports: {b1._broadcast_ports} then {b2._broadcast_ports}"}
+        api.SwitcherType1Api("192.0.2.1", "ab1234", "00")
+        api.SwitcherType2Api("192.0.2.1", "ab1234", "00")
+
+        def boom(d):
+            raise RuntimeError("callback")
+        proto = bridge.UdpClientProtocol(bridge.partial(bridge._parse_device_from_datagram, boom))
+        with warnings.catch_warnings():
+            warnings.simplefilter("ignore")
+            for k in range(40):
+                m = bytearray(gen(rnd))
+                if k % 3 == 0:
+                    m[42:74] = b"\xff" * 32
+                if k % 5 == 0:
+                    m[74:76] = b"\xff\xff"
+                try:
+                    proto.datagram_received(bytes(m), ("192.0.2.9", 20002))
+                except Exception:
+                    pass
+        bad = table_problems()
+        return {"ok": not bad, "evaluations": 45, "detail": bad[:5]}
     n = 0
     bad = []
     for cname, cat in CLASS_CATEGORY.items():
